@@ -172,9 +172,14 @@ func BuildFanP(e *Env, spec FanSpec, id, curveId string, pwm0, mode0 int, px str
 		must(os.WriteFile(pwmFile, []byte(strconv.Itoa(pwm0)), 0644))
 		must(os.WriteFile(rpmFile, []byte("0"), 0644))
 		must(os.WriteFile(wlog, nil, 0644))
-		writeScript(filepath.Join(sub, "setpwm.sh"), fmt.Sprintf("echo \"$1\" >> %s\nprintf '%%s' \"$1\" > %s\n", wlog, pwmFile))
-		writeScript(filepath.Join(sub, "getpwm.sh"), fmt.Sprintf("cat %s\n", pwmFile))
-		writeScript(filepath.Join(sub, "getrpm.sh"), fmt.Sprintf("cat %s\n", rpmFile))
+		// every script first looks at a fault-control file (absent in normal operation):
+		// "fail" -> exit 3, "garbage" -> prints garbage
+		fc := func(op string) string {
+			return fmt.Sprintf("m=$(cat %s 2>/dev/null)\ncase \"$m\" in\n fail) exit 3;;\n garbage) echo abc; exit 0;;\nesac\n", filepath.Join(sub, "fault_"+op))
+		}
+		writeScript(filepath.Join(sub, "setpwm.sh"), fc("set")+fmt.Sprintf("echo \"$1\" >> %s\nprintf '%%s' \"$1\" > %s\n", wlog, pwmFile))
+		writeScript(filepath.Join(sub, "getpwm.sh"), fc("get")+fmt.Sprintf("cat %s\n", pwmFile))
+		writeScript(filepath.Join(sub, "getrpm.sh"), fc("rpm")+fmt.Sprintf("cat %s\n", rpmFile))
 		e.RegisterFile(px+"pwm", pwmFile)
 		e.RegisterFile(px+"rpm", rpmFile)
 		e.RegisterFile(px+"wlog", wlog)
